@@ -107,6 +107,12 @@ fn alphabet() -> Vec<Op> {
         Op::AllFiles(s("/d")),
         Op::Entries(s("/d")),
         Op::Readlink(s("/d/l")),
+        // handles whose opening fails whatever the other threads do (the root is never a file, nothing ever creates
+        // /nope): one critical section, an error, no effect - and the guard is free again afterwards
+        Op::AppendH(s("/"), b"h".to_vec()),
+        Op::AppendH(s("/nope/x"), b"h".to_vec()),
+        Op::WriteH(s("/"), b"h".to_vec()),
+        Op::WriteH(s("/nope/x"), b"h".to_vec()),
         // metadata queries: the owner is one read of both ids, the predicates derived from the mode one read of it.
         // (chmod / chown themselves are not among the single-step operations of the statement - they snapshot the
         // entries under one guard and apply under another - so the owner and mode changes the queries race against
